@@ -77,7 +77,7 @@ def junk_strings(maxlen):
 
 def bounds(tier):
     return {"bases": len(BASES), "alphabet": ALPHA, "max_len": 3 if tier == "quick" else 4, "long_lines": len(LONG),
-            "sites_per_base": [len(sites_of(b)[1]) for b in BASES], "pairs": "length<=1 x all site pairs" if tier == "quick" else "length<=2 x all site pairs"}
+            "sites_per_base": [len(sites_of(b)[1]) for b in BASES], "pairs": "length<=1 x all site pairs" if tier == "quick" else "length<=1 plus 36 structural length-2 strings x all site pairs"}
 
 
 def points(tier):
@@ -179,7 +179,10 @@ def check_point(pt, only=None):
     if kind == "single":
         cases = [[(sites[pt[2]], j)] for j in junk_strings(pt[3]) + LONG]
     else:
-        js = junk_strings(pt[4])
+        js = junk_strings(1)
+        if pt[4] >= 2:
+            # thorough: the single symbols plus the two-symbol strings built from the structural characters
+            js = js + [a + b for a in ".: a1\"" for b in ".: a1\""]
         cases = [[(sites[pt[2]], a), (sites[pt[3]], b)] for a in js for b in js]
     for ci, pairs in enumerate(cases):
         if only is not None and ci != only:
